@@ -73,4 +73,15 @@ pub mod verif {
     pub fn metadata_address_range_size(spec: &SideMetadataSpec) -> usize {
         super::helpers::metadata_address_range_size(spec)
     }
+    /// The core spec constants (`spec_defs` is `pub(crate)`).
+    pub mod spec_defs {
+        pub use super::super::spec_defs::*;
+    }
+    /// The real registration of the VM side specs (computes the VM upper bound; write-once).
+    pub fn set_vm_side_metadata_specs(specs: &[SideMetadataSpec]) {
+        super::layout::set_vm_side_metadata_specs(specs)
+    }
+    pub fn side_metadata_reserved_bytes() -> usize {
+        super::layout::side_metadata_reserved_bytes()
+    }
 }
